@@ -24,4 +24,4 @@ MANIFEST = dict(
 def run(ctx):
     ledger_common.run(ctx, "C12", exhaustive=dict(quick="c12_quick", thorough="c12_thorough"),
                       negatives=[("c12_neg", ["OnlyOwnEquityDecreases", "SupplyChangesOnlyByIssuerOrHolder"])], sim="c12_sim",
-                      sim_quick=100, sim_thorough=3000, depth=9)
+                      sim_quick=150, sim_thorough=3000, depth=9)
